@@ -613,3 +613,58 @@ Proof.
            nag trans initial seed prng n_stoch F1 F2 F3 t i Ht Hi).
 Qed.
 Print Assumptions C02_every_simulated_row_is_optimal_for_the_specifications_solution.
+
+(* ---- END TO END WITH FILTERS ---------------------------------------------------------------------------------------------------- *)
+From LCM Require Import Proofs.C01_SparseSpec Proofs.C02_SimulateSparseSpec.
+(* the all-rows theorem with filters composed with C01_lcm_solve_with_filters_is_the_specifications_solve: for every period before   *)
+(* the last and every agent with an admissible restricted-choice combination, the recorded value is the specification's value_at of    *)
+(* the agent's state WITH THE SPECIFICATION's own table of the next period, and the recorded restricted, dense and continuous choices   *)
+(* are admissible and attain it.  (In the last period there is no next table: the theorem above already is the end-to-end statement.)   *)
+Theorem C02_every_simulated_row_with_filters_is_optimal_for_the_specifications_solution :
+  forall (m : model) (p : params) (dch cch : list (string * grid)),
+  let n := Lang.n_periods m in
+  let rs := restricted_states m in let rc := restricted_choices m in
+  let dst := free_discrete_states m in let cst := free_continuous_states m in
+  Permutation (rc ++ dch ++ cch) (choices m) -> NoDup (map fst (choices m)) -> NoDup (map fst (rs ++ rc)) -> rs <> [] ->
+  (forall x, In x (map fst (dst ++ cst ++ dch ++ cch)) -> is_restricted m x = false) ->
+  NoDup (map fst (states m)) -> grids_valid (states m) ->
+  (forall sg, In sg (states m) -> is_restricted m (fst sg) = true -> is_cont (snd sg) = false) ->
+  NoDup (map fst (rc ++ dst ++ dch ++ cst ++ cch)) -> ~ In "__sparse__"%string (map fst (rc ++ dch ++ cch)) ->
+  NoDup (map fst (rs ++ rc ++ dst ++ cst ++ dch ++ cch) ++ [period_name]) -> (1 <= n)%nat ->
+  (forall t, (S t < n)%nat -> forall si ci ds dc cs cidx,
+     in_bounds (sizes rs) si -> in_bounds (sizes rc) ci -> in_bounds (sizes dst) ds -> in_bounds (sizes dch) dc ->
+     in_bounds (sizes cst) cs -> in_bounds (sizes cch) cidx ->
+     evaluates_at_ix m p (fun _ => 0%Q) (is_restricted m) (rem_at m p (S t)) (sp_env t rs rc dst dch cst cch si ci ds dc cs cidx)) ->
+  (forall t, S t = n -> forall si ci ds dc cs cidx,
+     in_bounds (sizes rs) si -> in_bounds (sizes rc) ci -> in_bounds (sizes dst) ds -> in_bounds (sizes dch) dc ->
+     in_bounds (sizes cst) cs -> in_bounds (sizes cch) cidx ->
+     exists u, eval_fun (depth m) m p (sp_env t rs rc dst dch cst cch si ci ds dc cs cidx) "utility" = Some u) ->
+  (forall t idx, (t < n)%nat -> in_bounds (state_shape m) idx -> In (rpart (is_restricted m) (states m) idx) (rem_at m p t) ->
+     exists q, get VUndef (nth t (solve_spec m p) (scalar VUndef)) idx = VFin q) ->
+  forall (nag : nat) (trans : S3 -> list (list nat * list nat * list nat) -> nat -> list key -> S3)
+         (initial : S3) (seed : nat) (prng : nat -> key) (n_stoch : nat) (t a : nat),
+  (t < n)%nat -> (a < nag)%nat -> (S t < n)%nat ->
+  let '(stRs, stDst, stCst) := sp_states_at m p n dch cch nag trans initial seed prng n_stoch t in
+  let keepA := keep_of m p t rs rc dst cst stRs stDst stCst in
+  let colsA := data_colsA rc nag keepA stRs stDst in
+  let colsC := data_colsC rc nag keepA stCst in
+  length stRs = length rs -> length stDst = length dst -> length stCst = length cst -> (colsA ++ colsC)%list <> [] ->
+  (exists ci, in_bounds (sizes rc) ci /\ keepA a ci = true) ->
+  (forall row dc cc, (row < length (data_rows rc nag keepA))%nat -> in_bounds (sizes dch) dc -> in_bounds (sizes cch) cc ->
+     evaluates_at_ix m p (fun _ => 0%Q) (is_restricted m) (rem_at m p (S t))
+                     (env_of_vals6 t rs rc dst dch cst cch (agent_vals dch cch colsA colsC row dc cc))) ->
+  let vspec := fun idx => get VUndef (nth (S t) (solve_spec m p) (scalar VUndef)) idx in
+  let sigma := agent_sigma rs dst cst stRs stDst stCst a in
+  veq (sp_row_value m p n dch cch nag trans initial seed prng n_stoch t a) (value_at m p t false vspec sigma) /\
+  (sp_row_value m p n dch cch nag trans initial seed prng n_stoch t a <> VNegInf ->
+   let '(ci, red, cidx) := sp_row_choice m p n dch cch nag trans initial seed prng n_stoch t a in
+   in_bounds (sizes rc) ci /\ in_bounds (sizes dch) red /\ in_bounds (sizes cch) cidx /\
+   feasible m p (sigma ++ (env_of_idx rc ci ++ env_of_idx dch red ++ env_of_idx cch cidx) ++ [(period_name, Qofnat t)])%list = true /\
+   veq (objective m p false vspec (sigma ++ (env_of_idx rc ci ++ env_of_idx dch red ++ env_of_idx cch cidx) ++ [(period_name, Qofnat t)])%list)
+       (sp_row_value m p n dch cch nag trans initial seed prng n_stoch t a)).
+Proof.
+  intros m p dch cch n rs rc dst cst H1 H2 H3 H4 H5 H6 H7 H8 H9 H10 H11 H12 H13 H14 H15 nag trans initial seed prng n_stoch t a Ht Ha Ht'.
+  exact (every_simulated_row_with_filters_is_optimal_for_the_specifications_solution m p dch cch H1 H2 H3 H4 H5 H6 H7 H8 H9 H10 H11 H12 H13 H14 H15
+           nag trans initial seed prng n_stoch t a Ht Ha Ht').
+Qed.
+Print Assumptions C02_every_simulated_row_with_filters_is_optimal_for_the_specifications_solution.
